@@ -65,3 +65,14 @@ Theorem C06_loop_failed : forall cfg u now sc rc ps st st',
   cl_failed st' = cl_failed st || existsb (fail_trigger cfg now sc rc) ps.
 Proof. exact loop_failed_iff. Qed.
 Print Assumptions C06_loop_failed.
+
+(** "the span between the first and the latest observed restart" (and C05's "since the last canary pod restart") rest on
+    the PodRestarting condition: lastTransitionTime = the first observed restart, lastUpdateTime = the latest.  Whatever
+    the pods of a later sync show, the recorded latest restart never moves backwards and a recorded first restart is kept. *)
+Theorem C06_restart_record_monotone : forall oc unpaused now st0 f0 p0 r0 check l conds b,
+  canary_evaluate oc unpaused now st0 f0 p0 r0 check = Ok (l, conds) ->
+  get_cond (rs_conds st0) CT_PodRestarting = Some b ->
+  exists a, get_cond conds CT_PodRestarting = Some a /\
+            c_update b <= c_update a /\ (c_status b = CTrue -> c_trans a = c_trans b).
+Proof. exact restart_record_monotone. Qed.
+Print Assumptions C06_restart_record_monotone.
